@@ -276,7 +276,8 @@ Section Inv.
     wo_negate : forall a c, w_negate wd a = ROk c -> vok a = true -> vok c = true;
     wo_map_get : forall m k x, w_map_get wd m k = Some x -> kw_ok m = true -> vok x = true;
     wo_get_attr : forall v a x, w_get_attr wd v a = Some x -> vok v = true -> vok x = true;
-    wo_build_ctx : forall d k b c, w_build_ctx wd d k b = ROk c -> kw_ok k = true ->
+    wo_build_ctx : forall n d ch, assoc_get (w_components wd) n = Some (d, ch) ->
+                  forall k b c, w_build_ctx wd d k b = ROk c -> kw_ok k = true ->
                   obody_ok ok b = true -> ctx_ok c = true;
     wo_templates : forall n t, assoc_get (w_templates wd) n = Some t -> tpl_okP t;
     wo_components : forall n d c, assoc_get (w_components wd) n = Some (d, c) -> chunk_okP c }.
@@ -733,7 +734,7 @@ Section Inv.
       destruct (w_build_ctx wd def k0 None) as [cctx|] eqn:Eb; [|exact I].
       destruct (Nat.ltb (w_max_depth wd) (S depth)); [exact I|].
       assert (Hcc : ctx_ok cctx = true)
-        by (eapply (wo_build_ctx Hw); [exact Eb|eapply kwargs_of_ok; eassumption|reflexivity]).
+        by (eapply (wo_build_ctx Hw); [exact Ecp|exact Eb|eapply kwargs_of_ok; eassumption|reflexivity]).
       nest IH Ht (wo_components Hw _ _ _ Ecp); [apply new_state_inv, Hcc|reflexivity|].
       destruct on as [w1|text]; [exact I|]. destruct P as [_ Htext]. cbn [OInv] in Htext.
       nx IH Ht Hc; [apply push_inv; assumption|exact Ho].
@@ -747,7 +748,7 @@ Section Inv.
       destruct (Nat.ltb (w_max_depth wd) (S depth)); [exact I|].
       assert (Hmb : vok (mark_safe b) = true) by (eapply (Hbp eq_refl); eassumption).
       assert (Hcc : ctx_ok cctx = true)
-        by (eapply (wo_build_ctx Hw); [exact Eb|eapply kwargs_of_ok; eassumption|exact Hmb]).
+        by (eapply (wo_build_ctx Hw); [exact Ecp|exact Eb|eapply kwargs_of_ok; eassumption|exact Hmb]).
       nest IH Ht (wo_components Hw _ _ _ Ecp); [apply new_state_inv, Hcc|reflexivity|].
       destruct on as [w1|text]; [exact I|]. destruct P as [_ Htext]. cbn [OInv] in Htext.
       nx IH Ht Hc; [apply push_inv; assumption|exact Ho].
@@ -906,3 +907,323 @@ Proof.
                   Ht (proj1 (proj2 (proj2 Ht))) Hs0 Hw0) as P.
     destruct (run W wr wd fuel tpl None 0 (t_root_chunk tpl) 0 s0' (SinkTop w)) as [s1 [w1|b1]| |]; try exact I; apply P.
 Qed.
+
+(* ================================================================== part 3 *)
+From TeraV Require Import Model.World0 Model.WorldC01.
+
+(* ---------- Value::is_safe against the generated arms ---------- *)
+
+Lemma value_is_safe_matches_source : forall v, value_is_safe v = is_safe_gen v.
+Proof. intros [ | | b | r z | f | s fl | l | m | b ]; try reflexivity. destruct r; reflexivity. Qed.
+
+Lemma is_safe_arms_agree_true : is_safe_arms_agree = true.
+Proof. vm_compute. reflexivity. Qed.
+
+(* ---------- the default escaper ---------- *)
+
+Lemma special_cases c : special c = true -> (c = 60 \/ c = 62 \/ c = 34 \/ c = 39)%N.
+Proof.
+  unfold special. rewrite !orb_true_iff, !N.eqb_eq. tauto.
+Qed.
+
+Lemma esc_lookup_clean_gen c : forall tbl,
+  (forall kr, In kr tbl -> forallb ok_html (snd kr) = true) ->
+  (special c = true -> exists kr, In kr tbl /\ fst kr = c) ->
+  forallb ok_html (esc_lookup tbl c) = true.
+Proof.
+  induction tbl as [|[k r] t IH]; intros Hrep Hkey; cbn.
+  - unfold ok_html. destruct (special c) eqn:E; [|reflexivity].
+    destruct (Hkey eq_refl) as (kr & [] & _).
+  - destruct (k =? c)%N eqn:Ek.
+    + apply (Hrep (k, r)). left. reflexivity.
+    + apply IH.
+      * intros kr Hin. apply Hrep. right. exact Hin.
+      * intros Hs. destruct (Hkey Hs) as (kr & [Hh|Ht] & Hf).
+        -- subst kr. cbn in Hf. subst k. rewrite N.eqb_refl in Ek. discriminate.
+        -- exists kr. auto.
+Qed.
+
+Lemma escape_table_clean tbl :
+  escape_map_ok tbl = true -> forall s, clean ok_html (flat_map (esc_lookup tbl) s) = true.
+Proof.
+  intros H. unfold escape_map_ok in H. apply andb_prop in H. destruct H as [Hrep Hkeys].
+  rewrite forallb_forall in Hrep. rewrite forallb_forall in Hkeys.
+  induction s as [|c t IH]; [reflexivity|]. cbn [flat_map]. apply clean_app_intro; [|exact IH].
+  apply esc_lookup_clean_gen; [exact Hrep|].
+  intros Hs. assert (Hin : In c [60; 62; 34; 39]%N).
+  { apply special_cases in Hs. cbn. destruct Hs as [-> | [-> | [-> | ->]]]; auto. }
+  specialize (Hkeys _ Hin). apply existsb_exists in Hkeys. destruct Hkeys as (kr & Hkr & Heq).
+  exists kr. split; [exact Hkr|]. apply N.eqb_eq, Heq.
+Qed.
+
+Lemma escape_html_map_ok : escape_map_ok escape_html_map = true.
+Proof. vm_compute. reflexivity. Qed.
+
+Theorem escape_html_clean : forall s, clean ok_html (escape_html s) = true.
+Proof. intros s. unfold escape_html. apply escape_table_clean, escape_html_map_ok. Qed.
+
+(* the entity rule for the ampersand: the escaper's output is a concatenation of pieces, each either
+   one character other than & or a replacement of the table, and every replacement starts with its
+   only & *)
+Lemma escape_html_map_amp_ok : escape_map_amp_ok escape_html_map = true.
+Proof. vm_compute. reflexivity. Qed.
+
+Lemma esc_lookup_piece c : forall tbl,
+  (exists k, In (k, esc_lookup tbl c) tbl) \/ (esc_lookup tbl c = [c] /\ forall k r, In (k, r) tbl -> k <> c).
+Proof.
+  induction tbl as [|[k r] t IH]; cbn.
+  - right. split; [reflexivity|]. intros k r [].
+  - destruct (k =? c)%N eqn:Ek.
+    + left. exists k. left. reflexivity.
+    + destruct IH as [(k' & Hin)|(Heq & Hno)].
+      * left. exists k'. right. exact Hin.
+      * right. split; [exact Heq|]. intros k' r' [Hh|Ht].
+        -- inversion Hh; subst. intros ->. rewrite N.eqb_refl in Ek. discriminate.
+        -- eapply Hno, Ht.
+Qed.
+
+Theorem escape_html_entities : forall s,
+  escape_html s = concat (map (esc_lookup escape_html_map) s) /\
+  Forall (fun piece => (exists c, piece = [c] /\ c <> amp) \/
+                       (exists r, piece = amp :: r /\ ~ In amp r /\ In piece (map snd escape_html_map)))
+         (map (esc_lookup escape_html_map) s).
+Proof.
+  intros s. split; [unfold escape_html; apply flat_map_concat_map|].
+  apply Forall_forall. intros piece Hp. apply in_map_iff in Hp. destruct Hp as (c & <- & _).
+  pose proof escape_html_map_amp_ok as Hamp. unfold escape_map_amp_ok in Hamp.
+  apply andb_prop in Hamp. destruct Hamp as [Hkey Hshape].
+  destruct (esc_lookup_piece c escape_html_map) as [(k & Hin)|(Heq & Hno)].
+  - right. rewrite forallb_forall in Hshape. specialize (Hshape _ Hin). cbn [snd] in Hshape.
+    destruct (esc_lookup escape_html_map c) as [|a r] eqn:E; [discriminate|].
+    apply andb_prop in Hshape. destruct Hshape as [Ha Hr]. apply N.eqb_eq in Ha. subst a.
+    exists r. split; [reflexivity|]. split.
+    + intros Hc. apply negb_true_iff in Hr. assert (existsb (N.eqb amp) r = true); [|congruence].
+      apply existsb_exists. exists amp. split; [exact Hc|apply N.eqb_refl].
+    + apply in_map_iff. exists (k, amp :: r). split; [reflexivity|exact Hin].
+  - left. exists c. split; [exact Heq|]. intros ->.
+    apply existsb_exists in Hkey. destruct Hkey as ([k r] & Hin & Hk). cbn in Hk. apply N.eqb_eq in Hk.
+    eapply Hno; eassumption.
+Qed.
+
+(* ---------- Value::format of the kinds is_safe lets through ---------- *)
+
+Lemma digit_ok n : ok_html (48 + n mod 10) = true.
+Proof.
+  assert (H : (n mod 10 < 10)%N) by (apply N.mod_lt; discriminate).
+  unfold ok_html, special. generalize dependent (n mod 10)%N. intros x H.
+  destruct (48 + x =? 60)%N eqn:E1; [apply N.eqb_eq in E1; lia|].
+  destruct (48 + x =? 62)%N eqn:E2; [apply N.eqb_eq in E2; lia|].
+  destruct (48 + x =? 34)%N eqn:E3; [apply N.eqb_eq in E3; lia|].
+  destruct (48 + x =? 39)%N eqn:E4; [apply N.eqb_eq in E4; lia|]. reflexivity.
+Qed.
+
+Lemma pos_digits_clean : forall fuel n acc,
+  clean ok_html acc = true -> clean ok_html (pos_digits fuel n acc) = true.
+Proof.
+  induction fuel as [|f IH]; intros n acc Ha; cbn [pos_digits]; [exact Ha|].
+  assert (Hd : clean ok_html ((48 + n mod 10)%N :: acc) = true).
+  { unfold Taint.clean in *. cbn [forallb]. rewrite digit_ok. exact Ha. }
+  destruct (n / 10 =? 0)%N; [exact Hd|apply IH, Hd].
+Qed.
+
+Lemma z_to_str_clean z : clean ok_html (z_to_str z) = true.
+Proof.
+  destruct z; cbn [z_to_str]; [reflexivity| |]; unfold n_to_str.
+  - apply pos_digits_clean. reflexivity.
+  - change (ok_html 45 && clean ok_html (pos_digits (S (N.to_nat (N.log2 (N.pos p)))) (N.pos p) []) = true).
+    rewrite pos_digits_clean; reflexivity.
+Qed.
+
+Theorem scalar_format_clean (fp : spec_float -> str) :
+  (forall f, clean ok_html (fp f) = true) ->
+  forall v, value_is_safe v = true -> vok ok_html v = true -> clean ok_html (format_with fp v) = true.
+Proof.
+  intros Hfp [ | | b | r z | f | s fl | l | m | b ] Hsafe Hv; cbn in *; try discriminate; try reflexivity.
+  - destruct b; reflexivity.
+  - apply z_to_str_clean.
+  - apply Hfp.
+  - subst fl. exact Hv.
+Qed.
+
+(* ---------- guarded worlds ---------- *)
+
+Lemma guard_body_pol wd ok : body_pol (guard_bodies ok wd) ok.
+Proof.
+  intros d k b c E _. cbn in E. destruct (vok ok (mark_safe b)); [reflexivity|discriminate].
+Qed.
+
+Lemma chunk_okP_guard wd ok ch : chunk_ok ok ch = true -> chunk_okP (guard_bodies ok wd) ok ch.
+Proof. intros H. split; [exact H|]. intros _. apply guard_body_pol. Qed.
+
+Lemma assoc_get_in {A} (l : list (str * A)) n x : assoc_get l n = Some x -> exists k, In (k, x) l.
+Proof.
+  induction l as [|[k v] t IH]; cbn; [discriminate|].
+  destruct (str_eqb k n); [intros E; inversion E; subst; exists k; left; reflexivity|].
+  intros E. destruct (IH E) as (k' & Hin). exists k'. right. exact Hin.
+Qed.
+
+Definition tpl_ok_for (ok : N -> bool) (ae : option bool) (t : template) : bool :=
+  match ae with
+  | None => tpl_ok ok t
+  | Some true => tpl_chunks_ok ok t
+  | Some false => false
+  end.
+
+Lemma tpl_okP_guard wd ok ae t : tpl_ok_for ok ae t = true -> tpl_okP (guard_bodies ok wd) ok ae t.
+Proof.
+  intros H.
+  assert (Hc : aeon ae t = true /\ tpl_chunks_ok ok t = true).
+  { unfold tpl_ok_for, aeon in *. destruct ae as [[|]|]; try discriminate; [auto|].
+    unfold tpl_ok in H. unfold tpl_chunks_ok. rewrite !andb_true_iff in *. tauto. }
+  destruct Hc as [Hae Hch]. unfold tpl_chunks_ok in Hch. rewrite !andb_true_iff in Hch.
+  destruct Hch as [[H1 H2] H3].
+  split; [exact Hae|]. split; [apply chunk_okP_guard, H1|]. split; [apply chunk_okP_guard, H2|].
+  intros b lin E. apply assoc_get_in in E. destruct E as (k & Hin).
+  rewrite forallb_forall in H3. specialize (H3 _ Hin). cbn [snd] in H3.
+  apply Forall_forall. intros ch Hch. apply chunk_okP_guard. rewrite forallb_forall in H3. apply H3, Hch.
+Qed.
+
+Section Flat.
+  Variable wd : world.
+  Variable ok : N -> bool.
+  Variable ae : option bool.
+  Hypothesis Hesc : forall s, clean ok (w_escape wd s) = true.
+  Hypothesis Hfmt : forall v, value_is_safe v = true -> vok ok v = true -> clean ok (w_format wd v) = true.
+  Hypothesis Hfilter : forall n v k sc r sf, w_filter wd n v k sc = Some (ROk r, sf) ->
+      vok ok v = true -> kw_ok ok k = true -> scope_ok ok sc = true -> vok ok (if sf then mark_safe r else r) = true.
+  Hypothesis Hfunction : forall n k sc r sf, w_function wd n k sc = Some (ROk r, sf) ->
+      kw_ok ok k = true -> scope_ok ok sc = true -> vok ok (if sf then mark_safe r else r) = true.
+  Hypothesis Hmath : forall i a b c, w_math wd i a b = ROk c -> vok ok a = true -> vok ok b = true -> vok ok c = true.
+  Hypothesis Hnegate : forall a c, w_negate wd a = ROk c -> vok ok a = true -> vok ok c = true.
+  Hypothesis Hmapget : forall m k x, w_map_get wd m k = Some x -> kw_ok ok m = true -> vok ok x = true.
+  Hypothesis Hgetattr : forall v a x, w_get_attr wd v a = Some x -> vok ok v = true -> vok ok x = true.
+  Hypothesis Hbuild : forall n d ch, assoc_get (w_components wd) n = Some (d, ch) ->
+      forall k b c, w_build_ctx wd d k b = ROk c -> kw_ok ok k = true ->
+      obody_ok ok b = true -> ctx_ok ok c = true.
+  Hypothesis Htpls : forall n t, assoc_get (w_templates wd) n = Some t -> tpl_ok_for ok ae t = true.
+  Hypothesis Hcomps : forall n d c, assoc_get (w_components wd) n = Some (d, c) -> chunk_ok ok c = true.
+
+  Lemma guarded_world_ok : world_ok (guard_bodies ok wd) ok ae.
+  Proof.
+    constructor; cbn [guard_bodies w_escape w_format w_filter w_function w_math w_negate w_map_get
+                      w_get_attr w_build_ctx w_templates w_components]; try assumption.
+    - intros n d ch Ec k b c E Hk Hb. rewrite Hb in E. eapply Hbuild; eassumption.
+    - intros n t E. apply tpl_okP_guard, (Htpls _ _ E).
+    - intros n d c E. apply chunk_okP_guard, (Hcomps _ _ _ E).
+  Qed.
+End Flat.
+
+(* chunks without RenderBodyComponent need no guard *)
+Lemma chunk_okP_nobody wd ok ch : chunk_ok ok ch = true -> has_body_comp ch = false -> chunk_okP wd ok ch.
+Proof. intros H Hn. split; [exact H|]. rewrite Hn. discriminate. Qed.
+
+Lemma tpl_okP_nobody wd ok ae t :
+  tpl_ok_for ok ae t = true -> tpl_has_body_comp t = false -> tpl_okP wd ok ae t.
+Proof.
+  intros H Hnb.
+  assert (Hc : aeon ae t = true /\ tpl_chunks_ok ok t = true).
+  { unfold tpl_ok_for, aeon in *. destruct ae as [[|]|]; try discriminate; [auto|].
+    unfold tpl_ok in H. unfold tpl_chunks_ok. rewrite !andb_true_iff in *. tauto. }
+  destruct Hc as [Hae Hch]. unfold tpl_chunks_ok in Hch. rewrite !andb_true_iff in Hch.
+  destruct Hch as [[H1 H2] H3].
+  unfold tpl_has_body_comp in Hnb. rewrite !orb_false_iff in Hnb. destruct Hnb as [[N1 N2] N3].
+  split; [exact Hae|]. split; [apply chunk_okP_nobody; assumption|]. split; [apply chunk_okP_nobody; assumption|].
+  intros b lin E. apply assoc_get_in in E. destruct E as (k & Hin).
+  rewrite forallb_forall in H3. specialize (H3 _ Hin). cbn [snd] in H3.
+  apply Forall_forall. intros ch Hch. apply chunk_okP_nobody; [rewrite forallb_forall in H3; apply H3, Hch|].
+  destruct (has_body_comp ch) eqn:Eb; [|reflexivity].
+  assert (X : existsb (fun bl : str * list (list instr) => existsb has_body_comp (snd bl)) (t_lineage t) = true); [|congruence].
+  apply existsb_exists. exists (k, lin). split; [exact Hin|]. apply existsb_exists. exists ch. auto.
+Qed.
+
+Lemma wr_str_clean ok : forall (w t w' : str),
+  wr_str w t = Some w' -> clean ok w = true -> clean ok t = true -> clean ok w' = true.
+Proof. intros w t w' E Hw Ht. inversion E; subst. apply clean_app_intro; assumption. Qed.
+
+(* ---------- (A) the property, special case "literals without specials" ---------- *)
+
+Section Default.
+  Variable wd : world.
+  Variable fp : spec_float -> str.
+  Hypothesis Hesc : w_escape wd = escape_html.
+  Hypothesis Hfmt : w_format wd = format_with fp.
+  Hypothesis Hfp : forall f, clean ok_html (fp f) = true.
+  Hypothesis Hfilter : forall n v k sc r sf, w_filter wd n v k sc = Some (ROk r, sf) ->
+      vok ok_html v = true -> kw_ok ok_html k = true -> scope_ok ok_html sc = true ->
+      vok ok_html (if sf then mark_safe r else r) = true.
+  Hypothesis Hfunction : forall n k sc r sf, w_function wd n k sc = Some (ROk r, sf) ->
+      kw_ok ok_html k = true -> scope_ok ok_html sc = true -> vok ok_html (if sf then mark_safe r else r) = true.
+  Hypothesis Hmath : forall i a b c, w_math wd i a b = ROk c -> vok ok_html a = true -> vok ok_html b = true -> vok ok_html c = true.
+  Hypothesis Hnegate : forall a c, w_negate wd a = ROk c -> vok ok_html a = true -> vok ok_html c = true.
+  Hypothesis Hmapget : forall m k x, w_map_get wd m k = Some x -> kw_ok ok_html m = true -> vok ok_html x = true.
+  Hypothesis Hgetattr : forall v a x, w_get_attr wd v a = Some x -> vok ok_html v = true -> vok ok_html x = true.
+  Hypothesis Hbuild : forall n d ch, assoc_get (w_components wd) n = Some (d, ch) ->
+      forall k b c, w_build_ctx wd d k b = ROk c -> kw_ok ok_html k = true ->
+      obody_ok ok_html b = true -> ctx_ok ok_html c = true.
+  Hypothesis Hcomps : forall n d c, assoc_get (w_components wd) n = Some (d, c) -> chunk_ok ok_html c = true.
+
+  Lemma Hesc' : forall s, clean ok_html (w_escape wd s) = true.
+  Proof. intros s. rewrite Hesc. apply escape_html_clean. Qed.
+  Lemma Hfmt' : forall v, value_is_safe v = true -> vok ok_html v = true -> clean ok_html (w_format wd v) = true.
+  Proof. intros v. rewrite Hfmt. apply scalar_format_clean, Hfp. Qed.
+
+  Theorem no_raw_data_when_autoescape_on :
+    (forall n t, assoc_get (w_templates wd) n = Some t -> tpl_ok ok_html t = true) ->
+    forall fuel tpl block c g,
+    tpl_ok ok_html tpl = true -> ctx_ok ok_html c = true -> ctx_ok ok_html g = true ->
+    match render_to str wr_str (guard_bodies ok_html wd) fuel tpl block c g [] with
+    | RDone _ (SinkTop out) => clean ok_html out = true
+    | _ => True
+    end.
+  Proof.
+    intros Htpls fuel tpl block c g Ht Hc Hg.
+    pose proof (render_to_inv str wr_str (guard_bodies ok_html wd) ok_html (fun w => clean ok_html w = true)
+                  (guarded_world_ok wd ok_html None Hesc' Hfmt' Hfilter Hfunction Hmath Hnegate Hmapget Hgetattr
+                     Hbuild Htpls Hcomps)
+                  (wr_str_clean ok_html) fuel tpl block c g [] (tpl_okP_guard wd ok_html None tpl Ht) Hc Hg eq_refl) as P.
+    destruct (render_to str wr_str (guard_bodies ok_html wd) fuel tpl block c g []) as [s1 [out|b]| |]; auto.
+  Qed.
+
+  (* render_component(name, ctx, body, autoescape = true): the component chunk starts the run, the
+     override is Some true; templates reached through includes need not be autoescaped by name *)
+  Theorem render_component_clean :
+    (forall n t, assoc_get (w_templates wd) n = Some t -> tpl_chunks_ok ok_html t = true) ->
+    forall fuel tpl cchunk cctx,
+    tpl_chunks_ok ok_html tpl = true -> chunk_ok ok_html cchunk = true -> ctx_ok ok_html cctx = true ->
+    match run str wr_str (guard_bodies ok_html wd) fuel tpl (Some true) 0 cchunk 0 (new_state cctx) (SinkTop []) with
+    | RDone _ (SinkTop out) => clean ok_html out = true
+    | _ => True
+    end.
+  Proof.
+    intros Htpls fuel tpl cchunk cctx Ht Hch Hc.
+    pose proof (run_inv str wr_str (guard_bodies ok_html wd) ok_html (fun w => clean ok_html w = true) (Some true)
+                  (guarded_world_ok wd ok_html (Some true) Hesc' Hfmt' Hfilter Hfunction Hmath Hnegate Hmapget Hgetattr
+                     Hbuild Htpls Hcomps)
+                  (wr_str_clean ok_html) fuel tpl 0 cchunk 0 (new_state cctx) (SinkTop [])
+                  (tpl_okP_guard wd ok_html (Some true) tpl Ht) (chunk_okP_guard wd ok_html cchunk Hch)
+                  (new_state_inv (guard_bodies ok_html wd) ok_html cctx Hc) eq_refl) as P.
+    destruct (run str wr_str (guard_bodies ok_html wd) fuel tpl (Some true) 0 cchunk 0 (new_state cctx) (SinkTop []))
+      as [s1 [out|b]| |]; try exact I. apply P.
+  Qed.
+
+  (* without RenderBodyComponent in any chunk that can run, no guard is needed *)
+  Theorem no_raw_data_without_body_components :
+    (forall n t, assoc_get (w_templates wd) n = Some t -> tpl_ok ok_html t = true /\ tpl_has_body_comp t = false) ->
+    (forall n d c, assoc_get (w_components wd) n = Some (d, c) -> has_body_comp c = false) ->
+    forall fuel tpl block c g,
+    tpl_ok ok_html tpl = true -> tpl_has_body_comp tpl = false -> ctx_ok ok_html c = true -> ctx_ok ok_html g = true ->
+    match render_to str wr_str wd fuel tpl block c g [] with
+    | RDone _ (SinkTop out) => clean ok_html out = true
+    | _ => True
+    end.
+  Proof.
+    intros Htpls Hnb fuel tpl block c g Ht Htn Hc Hg.
+    assert (Hw : world_ok wd ok_html None).
+    { constructor; try assumption; try apply Hesc'; try apply Hfmt'.
+      - intros n t E. destruct (Htpls _ _ E). apply tpl_okP_nobody; assumption.
+      - intros n d ch E. apply chunk_okP_nobody; [eapply Hcomps, E|eapply Hnb, E]. }
+    pose proof (render_to_inv str wr_str wd ok_html (fun w => clean ok_html w = true) Hw
+                  (wr_str_clean ok_html) fuel tpl block c g [] (tpl_okP_nobody wd ok_html None tpl Ht Htn) Hc Hg eq_refl) as P.
+    destruct (render_to str wr_str wd fuel tpl block c g []) as [s1 [out|b]| |]; auto.
+  Qed.
+End Default.
